@@ -234,11 +234,12 @@ func (a ArchiveInfo) String() string {
 }
 
 func (a *ArchiveInfo) pointIndex(baseInterval, interval Timestamp) int {
-	// NOTE: We use interval.Sub(baseInterval) here instead of
-	// interval - baseInterval since the latter produces
-	// wrong values because of underflow when interval < baseInterval.
-	// Another solution would be (int64(interval) - int64(baseInterval))
-	pointDistance := int64(interval.Sub(baseInterval)) / int64(a.secondsPerPoint)
+	// NOTE: The distance is computed in 64 bits: interval - baseInterval
+	// underflows when interval < baseInterval, and interval.Sub(baseInterval)
+	// wraps around when the two are 2^31 or more seconds apart (a base slot
+	// written 68 years before the interval, or a retention close to 2^31
+	// seconds).
+	pointDistance := (int64(interval) - int64(baseInterval)) / int64(a.secondsPerPoint)
 	return int(floorMod(pointDistance, int64(a.numberOfPoints)))
 }
 
